@@ -182,6 +182,56 @@ const ifChain = `	if errors.Is(e, server.ErrLockWaitTimeout) {
 	}
 `
 
+const mapShape = `// errorCodes maps the errors returned by the lock server to their protobuf error codes
+var errorCodes = map[error]pb.ErrorCode{
+	server.ErrLockWaitTimeout:              pb.ErrorCode_LockWaitTimeout,
+	lock.ErrInvalidLockKey:                 pb.ErrorCode_InvalidLockKey,
+	lock.ErrLockDoesNotExist:               pb.ErrorCode_LockDoesNotExist,
+	lock.ErrLockNotLocked:                  pb.ErrorCode_NotLocked,
+	timermap.ErrTimerDoesNotExist:          pb.ErrorCode_LockDoesNotExistOrInvalidKey,
+	server.ErrLockDoesNotExistOrInvalidKey: pb.ErrorCode_LockDoesNotExistOrInvalidKey,
+	lock.ErrInvalidLockSize:                pb.ErrorCode_InvalidLockSize,
+	lock.ErrLockSizeMismatch:               pb.ErrorCode_LockSizeMismatch,
+}
+
+func lockErrToProtoBuffErr(e error) *pb.Error {
+	if e == nil {
+		return nil
+	}
+
+	errCode, ok := errorCodes[e]
+	if !ok {
+		errCode = pb.ErrorCode_Unknown
+	}
+	return &pb.Error{
+		Code:    errCode,
+		Message: e.Error(),
+	}
+}
+`
+
+const mapShapeRx = `(?s)// lockErrToProtoBuffErr converts an error to a protobuf error\nfunc lockErrToProtoBuffErr.*$`
+
+const renewHelper = `func renewInterval(lockTimeoutSeconds int32) int32 {
+	if lockTimeoutSeconds <= 30 {
+		return MinRenewSeconds
+	}
+	return max(lockTimeoutSeconds-30, MinRenewSeconds)
+}
+
+func (r *renewer) Start() {
+	interval := renewInterval(r.lockTimeoutSeconds)
+	go func() {`
+
+const renewStartRx = `(?s)func \(r \*renewer\) Start\(\) \{.*?\n\tgo func\(\) \{`
+
+func constsUnrecognised(base, got *Result) error {
+	if got.ConstOK() {
+		return fmt.Errorf("constants were accepted")
+	}
+	return nil
+}
+
 func mutants() []mutant {
 	allDefault := func(code string) map[string]string {
 		m := map[string]string{}
@@ -269,6 +319,40 @@ func mutants() []mutant {
 		{name: "srv: shifted lines and comments (harmless)", harmless: true, edits: []edit{
 			{grpcGo, "\tswitch e {", "\t// which code?\n\n\tswitch e { // by identity"}},
 			check: srvDiff(nil)},
+
+		// ------------------------------------------------------------ server-side table written as a map literal
+		{name: "srv: table as a map literal + lookup (harmless)", harmless: true, edits: []edit{
+			{"re:" + grpcGo, mapShapeRx, mapShape}},
+			check: func(base, got *Result) error {
+				if got.SrvShape != "map" {
+					return fmt.Errorf("shape read as %q", got.SrvShape)
+				}
+				return srvDiff(nil)(base, got)
+			}},
+		{name: "srv: map literal, lookup without ok (zero value = Unknown) (harmless)", harmless: true, edits: []edit{
+			{"re:" + grpcGo, mapShapeRx, strings.Replace(mapShape, "\terrCode, ok := errorCodes[e]\n\tif !ok {\n\t\terrCode = pb.ErrorCode_Unknown\n\t}\n", "\terrCode := errorCodes[e]\n", 1)}},
+			check: srvDiff(nil)},
+		{name: "srv: map literal, one value changed", edits: []edit{
+			{"re:" + grpcGo, mapShapeRx, strings.Replace(mapShape, "lock.ErrLockNotLocked:                  pb.ErrorCode_NotLocked,", "lock.ErrLockNotLocked:                  pb.ErrorCode_InvalidLockKey,", 1)}},
+			check: srvDiff(map[string]string{"ELockNotLocked": "InvalidLockKey"})},
+		{name: "srv: map literal, entry dropped", edits: []edit{
+			{"re:" + grpcGo, mapShapeRx, strings.Replace(mapShape, "\tserver.ErrLockDoesNotExistOrInvalidKey: pb.ErrorCode_LockDoesNotExistOrInvalidKey,\n", "", 1)}},
+			check: srvDiff(map[string]string{"ESrvDoesNotExistOrInvalidKey": "Unknown"})},
+		{name: "srv: map literal, other default", edits: []edit{
+			{"re:" + grpcGo, mapShapeRx, strings.Replace(mapShape, "\t\terrCode = pb.ErrorCode_Unknown\n", "\t\terrCode = pb.ErrorCode_NotLocked\n", 1)}},
+			check: srvDiff(allDefault("NotLocked"))},
+		{name: "srv: map literal changed in init()", edits: []edit{
+			{"re:" + grpcGo, mapShapeRx, mapShape + "\nfunc init() {\n\tdelete(errorCodes, lock.ErrLockNotLocked)\n}\n"}},
+			check: srvUnrecognised},
+		{name: "srv: map literal with a repeated key", edits: []edit{
+			{"re:" + grpcGo, mapShapeRx, strings.Replace(mapShape, "\tlock.ErrLockSizeMismatch:               pb.ErrorCode_LockSizeMismatch,\n", "\tlock.ErrLockSizeMismatch:               pb.ErrorCode_LockSizeMismatch,\n\tlock.ErrInvalidLockKey:                 pb.ErrorCode_NotLocked,\n", 1)}},
+			check: srvUnrecognised},
+		{name: "srv: map lookup on something else than the error", edits: []edit{
+			{"re:" + grpcGo, mapShapeRx, strings.Replace(mapShape, "errorCodes[e]", "errorCodes[errors.Unwrap(e)]", 1)}},
+			check: srvUnrecognised},
+		{name: "srv: map built by a function call", edits: []edit{
+			{"re:" + grpcGo, mapShapeRx, strings.Replace(strings.Replace(mapShape, "var errorCodes = map[error]pb.ErrorCode{", "var errorCodes = mk(map[error]pb.ErrorCode{", 1), "\tlock.ErrLockSizeMismatch:               pb.ErrorCode_LockSizeMismatch,\n}", "\tlock.ErrLockSizeMismatch:               pb.ErrorCode_LockSizeMismatch,\n})\n\nfunc mk(m map[error]pb.ErrorCode) map[error]pb.ErrorCode { return m }", 1)}},
+			check: srvUnrecognised},
 
 		// ------------------------------------------------------------ client-side switch
 		{name: "cli: swap two returns", edits: []edit{
@@ -377,6 +461,28 @@ func mutants() []mutant {
 		{name: "const: renew subtrahend", edits: []edit{{clientGo, "max(r.lockTimeoutSeconds-30, MinRenewSeconds)", "max(r.lockTimeoutSeconds-20, MinRenewSeconds)"}},
 			check: constIs("renew_subtract", "20")},
 		{name: "const: renew formula of another shape", edits: []edit{{clientGo, "max(r.lockTimeoutSeconds-30, MinRenewSeconds)", "r.lockTimeoutSeconds / 2"}},
+			check: constIs("renew_formula_recognised", "false")},
+		{name: "const: MinRenewSeconds through a named constant (harmless)", harmless: true, edits: []edit{
+			{clientGo, "MinRenewSeconds = int32(10)", "MinRenewSeconds = int32(defaultMinRenew)"},
+			{clientGo, "var (\n\t// Minimum amount of time", "const defaultMinRenew = 10\n\nvar (\n\t// Minimum amount of time"}},
+			check: constIs("client_MinRenewSeconds", "10")},
+		{name: "const: MinRenewSeconds as constant arithmetic", edits: []edit{{clientGo, "MinRenewSeconds = int32(10)", "MinRenewSeconds = int32(2*5 + 1)"}},
+			check: constIs("client_MinRenewSeconds", "11")},
+		{name: "const: MinRenewSeconds from another variable", edits: []edit{{clientGo, "MinRenewSeconds = int32(10)", "MinRenewSeconds = int32(RetryDelaySeconds)"}},
+			check: constsUnrecognised},
+		{name: "const: MinRenewSeconds conversion that does not fit", edits: []edit{{clientGo, "MinRenewSeconds = int32(10)", "MinRenewSeconds = int32(1 << 40)"}},
+			check: constsUnrecognised},
+		{name: "const: renew formula in a helper (harmless)", harmless: true, edits: []edit{
+			{"re:" + clientGo, renewStartRx, renewHelper}},
+			check: constIs("renew_formula_recognised", "true")},
+		{name: "const: renew helper with another threshold", edits: []edit{
+			{"re:" + clientGo, renewStartRx, strings.Replace(renewHelper, "lockTimeoutSeconds <= 30", "lockTimeoutSeconds <= 40", 1)}},
+			check: constIs("renew_threshold", "40")},
+		{name: "const: renew helper of another shape", edits: []edit{
+			{"re:" + clientGo, renewStartRx, strings.Replace(renewHelper, "\treturn max(lockTimeoutSeconds-30, MinRenewSeconds)", "\treturn lockTimeoutSeconds / 2", 1)}},
+			check: constIs("renew_formula_recognised", "false")},
+		{name: "const: renew helper called twice", edits: []edit{
+			{"re:" + clientGo, renewStartRx, strings.Replace(renewHelper, "\tinterval := renewInterval(r.lockTimeoutSeconds)\n", "\tinterval := renewInterval(r.lockTimeoutSeconds)\n\tinterval += renewInterval(r.lockTimeoutSeconds)\n", 1)}},
 			check: constIs("renew_formula_recognised", "false")},
 		{name: "const: cookie name", edits: []edit{{"net/rest/rest.go", `sessionCookieName = "ldlm-session"`, `sessionCookieName = "sid"`}},
 			check: constIs("rest_sessionCookieName", `"sid"`)},
